@@ -677,6 +677,29 @@ def rule_r6(prog, res) -> None:
                     res.violation("C02.R6", fi, c, "patch centres reach split_into_patches without conversion to xyz: nearest-centre assignment compares unit vectors with (ra, dec) pairs", key_extra=f"centres-not-xyz-{fi.qualname}")
     if n < 3:
         raise AnalysisError(f"C02.R6: only {n} split_into_patches call sites, minimum 3")
+    # … and what it returns goes somewhere: the per-patch pieces of every chunk are handed to the catalog writer, put on
+    # the queue to the writer process, sent to the writer rank or returned to the caller that does so — a result that is
+    # computed and dropped loses the records of that chunk without any error
+    SINKS = ("process_patches", "put", "send", "isend", "append", "extend", "update")
+    for fi in pipe_funcs:
+        for c in calls_in(fi):
+            if not (any(t.name == "split_into_patches" for t in prog.resolve_call(fi, c).funcs()) and len(c.args) >= 2):
+                continue
+            pmf = parents_map(fi.node)
+            par = pmf.get(id(c))
+            used = False
+            if isinstance(par, ast.Call):  # handed on directly: sink(split_into_patches(...))
+                used = (dotted(par.func) or unparse(par.func)).split(".")[-1] in SINKS
+            elif isinstance(par, (ast.Return, ast.Yield)):
+                used = True
+            elif isinstance(par, ast.Assign) and len(par.targets) == 1 and isinstance(par.targets[0], ast.Name):
+                nm = par.targets[0].id
+                # (helpers of the writer are expanded in place here: the pieces may be consumed by the loop that files them)
+                used = any(isinstance(x, ast.Name) and x.id == nm and isinstance(x.ctx, ast.Load) for x in ast.walk(fi.node))
+            if used:
+                res.ok("C02.R6", res.site(fi, "pieces handed on"), "the result of split_into_patches reaches the writer / the queue / the writer rank", nontrivial=False)
+            else:
+                res.violation("C02.R6", fi, c, f"{fi.qualname} computes the per-patch pieces of a chunk (split_into_patches) and drops them: they are neither handed to the catalog writer nor queued / sent to it — the records of every chunk are lost, the catalog is created empty or incomplete without an error", key_extra=f"pieces-dropped-{fi.qualname}")
     apc = prog.func("assign_patch_centers")
     res.touch(apc)
     vq = [c for c in calls_in(apc) if (dotted(c.func) or "").endswith("vq.vq") or (dotted(c.func) or "").endswith(".vq")]
